@@ -62,6 +62,11 @@ func vectors(metric string) (stored [][]float32, queries [][]float32) {
 		for i := 6; i < 10; i++ {
 			queries = append(queries, mk(i))
 		}
+	case "euclidean6":
+		// 6 dimensions: with 2 sub-vectors a product quantiser has sub-vectors of length 3, so that
+		// "number of sub-vectors" and "length of a sub-vector" are different numbers
+		stored = [][]float32{{0, 0, 0, 0, 0, 0}, {1, 0, 2, 0, 0, 3}, {0, 2, 0, 5, 1, 0}, {3, 3, 1, 0, 0, 4}, {-1, 0, 0, 2, 6, 0}, {1, 0, 4, 0.5, 0, 0}}
+		queries = [][]float32{{0, 0, 0, 0, 0, 0}, {1, 1, 2, 0, 0, 3}, {-2, 0.5, 0, 1, 5, 0}, {3, 3, 1, 0, 0, 4}}
 	default: // euclidean, dot: small lattice, exact in float32
 		stored = [][]float32{{0, 0, 0, 0}, {1, 0, 0, 0}, {0, 2, 0, 0}, {3, 3, 0, 0}, {-1, 0, 0, 2}, {1, 0, 0, 0.5}}
 		queries = [][]float32{{0, 0, 0, 0}, {1, 1, 0, 0}, {-2, 0.5, 0, 1}, {3, 3, 0, 0}}
@@ -75,6 +80,9 @@ func dimOf(metric string) uint {
 	}
 	if metric == "euclidean96" {
 		return 96
+	}
+	if metric == "euclidean6" {
+		return 6
 	}
 	return 4
 }
@@ -210,11 +218,11 @@ func master(cfg *harness.Config, rep *harness.Report) {
 		metric string
 		q      quant
 	}
-	combos := []combo{{"euclidean96", learned}, {models.DistanceEuclidean, product}, {models.DistanceDot, product}, {models.DistanceCosine, product}, {models.DistanceEuclidean, none}, {models.DistanceHamming, none}, {models.DistanceJaccard, none}, {models.DistanceEuclidean, learned}, {models.DistanceCosine, none}, {models.DistanceDot, fixed}, {models.DistanceHaversine, none}}
+	combos := []combo{{"euclidean96", learned}, {"euclidean6", product}, {models.DistanceEuclidean, product}, {models.DistanceDot, product}, {models.DistanceCosine, product}, {models.DistanceEuclidean, none}, {models.DistanceHamming, none}, {models.DistanceJaccard, none}, {models.DistanceEuclidean, learned}, {models.DistanceCosine, none}, {models.DistanceDot, fixed}, {models.DistanceDot, none}, {models.DistanceHaversine, none}}
 	depth := 3
 	if !cfg.Quick() {
 		depth = 4
-		combos = append(combos, combo{models.DistanceDot, none}, combo{models.DistanceCosine, learned}, combo{models.DistanceEuclidean, fixed}, combo{models.DistanceHaversine, learned}, combo{models.DistanceDot, learned}, combo{models.DistanceCosine, fixed})
+		combos = append(combos, combo{models.DistanceCosine, learned}, combo{models.DistanceEuclidean, fixed}, combo{models.DistanceHaversine, learned}, combo{models.DistanceDot, learned}, combo{models.DistanceCosine, fixed})
 	}
 	caches := []struct {
 		name   string
@@ -225,7 +233,7 @@ func master(cfg *harness.Config, rep *harness.Report) {
 	var specs []seqx.Spec
 	for _, c := range combos {
 		for _, cs := range caches {
-			schema := models.IndexSchema{prop: {Type: models.IndexTypeVectorFlat, VectorFlat: &models.IndexVectorFlatParameters{VectorSize: dimOf(c.metric), DistanceMetric: strings.TrimSuffix(c.metric, "96"), Quantizer: c.q.q}}}
+			schema := models.IndexSchema{prop: {Type: models.IndexTypeVectorFlat, VectorFlat: &models.IndexVectorFlatParameters{VectorSize: dimOf(c.metric), DistanceMetric: strings.TrimRight(c.metric, "0123456789"), Quantizer: c.q.q}}}
 			cc := cfgT{Inst: sl.InstCfg{Backend: "bbolt", CacheSize: cs.size, ReopenEachOp: cs.reopen, Schema: schema, Proxy: true}, Metric: c.metric}
 			specs = append(specs, seqx.Spec{Name: fmt.Sprintf("%s/%s/%s", c.metric, c.q.name, cs.name), Cfg: cc, Alphabet: symbols(c.metric).Refs(), Depth: depth, Dedup: cs.dedup})
 			if cs.name == "warm" && c.q.q != nil {
